@@ -487,7 +487,62 @@ fn typed_use(a: &mut Asm, r: &mut Rng, scratch_slot: U256) {
 /// One storage fragment on slot `s`; stack-neutral.
 fn storage_fragment(a: &mut Asm, r: &mut Rng, s: U256, slots: &[U256]) {
     let other = *r.pick(slots);
-    match r.below(17) {
+    match r.below(20) {
+        17 => {
+            // proxy-slot idiom: the slot is the hash of an ASCII string held
+            // in memory, optionally minus one (added as 2^256 - 1)
+            let text: &[u8] = *r.pick(&[
+                &b"eip1967.proxy.implementation"[..],
+                &b"eip1967.proxy.admin"[..],
+                &b"org.zeppelinos.proxy.owner"[..],
+                &b"some.storage.slot.name.v1"[..],
+            ]);
+            let mut word = [0u8; 32];
+            word[..text.len()].copy_from_slice(text);
+            a.push(U256::from_be_bytes(word)).op(op::PUSH0).op(op::MSTORE);
+            a.push_u(0x20).op(op::PUSH0).op(op::SHA3);
+            if r.chance(1, 2) {
+                a.push(U256::MAX).op(op::ADD);
+            }
+            if r.chance(1, 2) {
+                a.op(op::SLOAD);
+                typed_use(a, r, other);
+            } else {
+                typed_value(a, r);
+                a.swap(1).op(op::SSTORE);
+            }
+        }
+        18 => {
+            // mapping of mapping of mapping (of mapping)
+            a.push(s);
+            let depth = 3 + r.usize_below(2);
+            for _ in 0..depth {
+                mapping_hash(a, r);
+            }
+            if r.chance(1, 2) {
+                a.op(op::SLOAD);
+                typed_use(a, r, other);
+            } else {
+                typed_value(a, r);
+                a.swap(1).op(op::SSTORE);
+            }
+        }
+        19 => {
+            // a dynamic array of two-word structs held in a mapping:
+            // keccak(keccak(key ‖ slot)) + 2*i + field
+            a.push(s);
+            mapping_hash_field(a, r, false);
+            a.op(op::PUSH0).op(op::MSTORE).push_u(0x20).op(op::PUSH0).op(op::SHA3);
+            a.push_u(36).op(op::CALLDATALOAD).push_u(2).op(op::MUL).op(op::ADD);
+            a.push_u(r.below(2) as u128).op(op::ADD);
+            if r.chance(1, 2) {
+                a.op(op::SLOAD);
+                typed_use(a, r, other);
+            } else {
+                typed_value(a, r);
+                a.swap(1).op(op::SSTORE);
+            }
+        }
         16 => {
             // the value of one slot stored into a field of a struct-valued
             // mapping at another slot, while the first slot is also read as a
@@ -646,7 +701,13 @@ pub fn gen_storage(r: &mut Rng) -> Vec<u8> {
             slots.push(s);
         }
     }
-    let branches = if r.chance(1, 3) { 0 } else { 1 + r.usize_below(4) };
+    // Mostly a handful of dispatch branches; now and then a contract-sized
+    // dispatcher (dozens of branches, a few thousand bytes, hundreds of values).
+    let branches = match r.below(60) {
+        0 => 20 + r.usize_below(30),
+        1..=20 => 0,
+        _ => 1 + r.usize_below(4),
+    };
     if branches == 0 {
         let n = 2 + r.usize_below(6);
         for _ in 0..n {
